@@ -15,6 +15,19 @@
     fn same_model(a: &LinearModel, b: &LinearModel) -> Result<(), String> {
         let ((ta, da), (tb, db)) = (split(a), split(b));
         if ta != tb { return Err(format!("expected: {} || got: {}", ta, tb)); }
+        // the numbers themselves, not only their rendering (the same renderer prints both sides)
+        let close = |x: f64, y: f64| x == y || (x - y).abs() <= 1e-12 * (x.abs() + y.abs());
+        if a.variables() != b.variables() { return Err(format!("variables {:?} vs {:?}", a.variables(), b.variables())); }
+        if a.objective().len() != b.objective().len() || a.objective().iter().zip(b.objective()).any(|(x, y)| !close(*x, *y)) || !close(a.objective_offset(), b.objective_offset()) {
+            return Err(format!("objective {:?} + {} became {:?} + {}", a.objective(), a.objective_offset(), b.objective(), b.objective_offset()));
+        }
+        if a.constraints().len() != b.constraints().len() { return Err("different number of rows".to_string()); }
+        for (ra, rb) in a.constraints().iter().zip(b.constraints()) {
+            if ra.name() != rb.name() || ra.constraint_type() != rb.constraint_type() || !close(ra.rhs(), rb.rhs())
+                || ra.coefficients().len() != rb.coefficients().len() || ra.coefficients().iter().zip(rb.coefficients()).any(|(x, y)| !close(*x, *y)) {
+                return Err(format!("row {:?} {} {} became {:?} {} {}", ra.coefficients(), ra.constraint_type(), ra.rhs(), rb.coefficients(), rb.constraint_type(), rb.rhs()));
+            }
+        }
         if da.len() != db.len() { return Err(format!("different variables: {:?} vs {:?}", da, db)); }
         for (na, va) in da.iter() {
             let vb = match db.iter().find(|(nb, _)| nb == na) { Some((_, v)) => v, None => return Err(format!("variable {} is missing after re-compilation", na)) };
@@ -28,12 +41,16 @@
         let decl = "define\n    a, b, c as Real(-5, 5)";
         for e in ["a - (b - c)", "a - (b + c)", "a / (2 * 4)", "a / (2 / 4)", "(a - b) - c", "a - b - c", "-(a + b)", "-(a - b)", "-a - b", "a - -2", "a * -2", "-2 * a", "-(2 * a)", "a + -b", "-(-a)", "3 - (b - 2)", "a - (b - (c - a))",
                   "abs{ a - b }", "abs{ -a } - 1", "min{ a, b - c }", "max{ a, -(b + c), 2 }", "2 * abs{ a } - max{ b, c }", "-(abs{ a } + 1)", "a - (abs{ b } - c)", "a - (min{ b, c } - 1)", "3 - max{ a, b }",
-                  "0.000000001 * a", "-0.000000001 * a + b", "1000000000 * a", "-1000000000 * a - 0.5 * b", "0.000001 * a - 123456789.5 * b", "a * 0.1 + b * 0.2", "a / 3", "-a / 7", "1e-7 * a", "2.5e8 * a"] {
+                  "0.000000001 * a", "-0.000000001 * a + b", "1000000000 * a", "-1000000000 * a - 0.5 * b", "0.000001 * a - 123456789.5 * b", "a * 0.1 + b * 0.2", "a / 3", "-a / 7", "1e-7 * a", "2.5e8 * a",
+                  "1.000001 * a + b", "-1.000002 * a + b", "0.999995 * a - b", "a - 0.9999999 * b", "1.0000000001 * a", "a + 0.00001 * b", "(a + b) * 1.000004"] {
             out.push(format!("min a\ns.t.\n    {} <= 3\n    a + b + c >= -4\n{}", e, decl));
             out.push(format!("min {}\ns.t.\n    a + b + c >= -4\n    a - b <= 2\n{}", e, decl));
             out.push(format!("max {} + 7\ns.t.\n    r1: a + b + c <= 4\n    r1: {} >= -30\n    a - c >= -6\n{}", e, e, decl));
         }
         let bdecl = "define\n    p, q, r as Boolean";
+        for e in ["(p and q) + r >= 1", "p + (q or r) <= 1", "(p implies q) + (q iff r) >= 1", "not p + q >= 1", "(p xor q) - r = 0", "2 * (p and q) <= r + 1"] {
+            out.push(format!("max p + q + r\ns.t.\n    {}\n{}", e, bdecl));
+        }
         for e in ["p and q", "p or q and r", "(p or q) and r", "not p", "not (p and q)", "p implies q", "(p implies q) implies r", "p implies (q implies r)", "p iff q", "p xor q", "(p xor q) xor r", "not (p implies q)", "p and (q or r)", "(p iff q) or r"] {
             out.push(format!("solve\ns.t.\n    {}\n{}", e, bdecl));
             out.push(format!("max p + q + r\ns.t.\n    named: {}\n    p + q + r >= 1\n{}", e, bdecl));
